@@ -445,6 +445,38 @@ def rule_C(ck, units):
             ck.ob('C.precision', key, f.where(), ok, det)
 
 
+INT_SIZE = {'char': 1, 'signed char': 1, 'unsigned char': 1, 'short': 2, 'unsigned short': 2, 'int': 4, 'unsigned int': 4, 'long': 8, 'unsigned long': 8, 'long long': 8, 'unsigned long long': 8}
+
+
+def rule_F(ck, units):
+    ck.rule('F.integer-parse-width', 'mm_reader::read_value<T> for an integral T extracts the number into a variable at least as wide as T (a narrower temporary makes valid 64-bit integer '
+                                     'files fail to parse or wrap): the int temporary is for the character types only', 3)
+    done = set()
+    for u in units.values():
+        for f in u.funcs:
+            if f.q != 'amgcl::io::mm_reader::read_value' or f.body is None:
+                continue
+            m = re.search(r'read_value<(.*)>$', f.full.split('(')[0].strip())
+            T = (m.group(1) if m else '').replace('const ', '').strip()
+            if T not in INT_SIZE or T in done:
+                continue
+            done.add(T)
+            bad = None
+            loc_ = locate(f)
+            live = f.cfg.reachable() if f.cfg is not None else None
+            for n in f.nodes.values():
+                if n['k'] == 'bin' and n['op'] == '>>' and n.get('f', '').endswith('operator>>'):
+                    if live is not None and (n['i'] not in loc_ or loc_[n['i']][0] not in live):
+                        continue      # in a branch whose condition is a compile-time false for this T (if (is_same<T, char>::value))
+                    y = unwrap(n['y'])
+                    if y is not None and y['k'] == 'ref':
+                        t = u.type(f.decl(y['d']).get('ct')).replace('const ', '').replace('&', '').strip()
+                        if t in INT_SIZE and INT_SIZE[t] < INT_SIZE[T]:
+                            bad = (n, t)
+            ck.ob('F.integer-parse-width', 'amgcl::io::mm_reader::read_value<%s>' % T, f.where(bad[0]) if bad else f.where(), bad is None,
+                  '' if bad is None else 'values of type %s are extracted into a variable of type %s at %s: numbers beyond its range make a valid file fail to parse' % (T, bad[1], f.where(bad[0])))
+
+
 def main(tier):
     ck = Check('C19', tier, 'C19 (clauses): every file read is checked, file-derived indices are range-checked before use, written precision suffices for an exact round trip.')
     T = os.path.join(ir.VERIF, 'tus')
@@ -458,6 +490,7 @@ def main(tier):
     rule_C(ck, units)
     rule_D(ck, units)
     rule_E(ck, units)
+    rule_F(ck, units)
     ck.assumptions += ['the round trip itself and row-range slices being equal to the full read are not decided',
                        'allocation sizes and loop bounds taken from the file fail by exception (length_error / bad_alloc / unexpected eof) and are not treated as sinks']
     return ck.finish()
